@@ -83,6 +83,230 @@ type Gate struct {
 	// function returning that value as its error returns the check's verdict,
 	// which is as good as testing it.
 	IsVerdict func(v ssa.Value) bool
+	// For (optional): the same gate re-instantiated for another function — needed
+	// when Match refers to fn's own parameters (e.g. "the author identity
+	// parameter"); used when the check is evaluated inside a helper.
+	For func(fn *ssa.Function) Gate
+}
+
+// ---------------------------------------------------------------------------
+// Gate summaries: a check extracted into a helper.
+//
+// `if err := h(...); err != nil { return err }` crosses the pass edge of gate g
+// when every non-error return of h is itself reachable only across g's pass
+// edge inside h (h enforces g). `if !h(...) { return Err }` likewise when h's
+// boolean answer is g's own tested value, or when h returns a constant only
+// across g's pass edge. Depth is bounded; results are memoised per (helper, gate).
+
+type sumKey struct {
+	fn   *ssa.Function
+	gate string
+	kind string
+}
+
+var (
+	sumCache = map[sumKey]int{} // 1 yes, 2 no
+	sumDepth = 0
+)
+
+const maxSummaryDepth = 2
+
+func (g Gate) in(h *ssa.Function) Gate {
+	if g.For != nil {
+		return g.For(h)
+	}
+	return g
+}
+
+// helperOf: the repository function with a body that produced value v as its
+// result #idx (idx<0: last) on every origin; nil when origins differ.
+func helperOf(v ssa.Value, idx int, self *ssa.Function) *ssa.Function {
+	vals, unknown := Origins(v)
+	if unknown || len(vals) == 0 {
+		return nil
+	}
+	var h *ssa.Function
+	for _, o := range vals {
+		call, i, ok := CallResult(o)
+		if !ok {
+			return nil
+		}
+		n := call.Call.Signature().Results().Len()
+		want := idx
+		if want < 0 {
+			want = n - 1
+		}
+		if i != want {
+			return nil
+		}
+		f := CalleeFunc(&call.Call)
+		if f == nil || f.Blocks == nil || !IsRepoFunc(f) || f == self {
+			return nil
+		}
+		if h != nil && h != f {
+			return nil
+		}
+		h = f
+	}
+	return h
+}
+
+// enforcesErr: every non-error return of h lies behind g's pass edge.
+func (g Gate) enforcesErr(h *ssa.Function) bool {
+	k := sumKey{h, g.Name, "err"}
+	if r, ok := sumCache[k]; ok {
+		return r == 1
+	}
+	if sumDepth >= maxSummaryDepth {
+		return false
+	}
+	sumDepth++
+	defer func() { sumDepth-- }()
+	sumCache[k] = 2 // recursion guard
+	gg := g.in(h)
+	sinks := SuccessReturns(h)
+	if len(sinks) == 0 || ErrIndex(h) < 0 {
+		return false
+	}
+	edges, sites := gg.PassEdges(h)
+	nSites := len(sites)
+	for e := range ErrorExitEdges(h) {
+		edges[e] = true
+	}
+	r := Reach(h, ReachOpts{Removed: edges})
+	for _, s := range sinks {
+		if ret, ok := s.(*ssa.Return); ok && gg.IsVerdict != nil {
+			if ei := ErrIndex(h); ei < len(ret.Results) && gg.IsVerdict(ret.Results[ei]) {
+				nSites++
+				continue
+			}
+		}
+		if r.Reachable(s) {
+			return false
+		}
+	}
+	if nSites == 0 {
+		return false
+	}
+	sumCache[k] = 1
+	return true
+}
+
+// enforcesBool: h's boolean result #0 is val only behind g's pass edge, or is
+// g's own tested value (then the polarity is g's). Returns (ok, passWhenTrue).
+func (g Gate) enforcesBool(h *ssa.Function) (bool, bool) {
+	if sumDepth >= maxSummaryDepth {
+		return false, false
+	}
+	sumDepth++
+	defer func() { sumDepth-- }()
+	gg := g.in(h)
+	rets := Returns(h)
+	if len(rets) == 0 {
+		return false, false
+	}
+	// (a) verdict form: every return hands back the value g itself tests
+	allVerdict, pol, first := true, false, true
+	for _, ri := range rets {
+		ret := ri.(*ssa.Return)
+		if ret.Block() == h.Recover || len(ret.Results) == 0 {
+			continue
+		}
+		v := ret.Results[0]
+		if _, isConst := v.(*ssa.Const); isConst {
+			allVerdict = false
+			break
+		}
+		a := Atom{X: v}
+		for {
+			if u, ok := a.X.(*ssa.UnOp); ok && u.Op == token.NOT {
+				a.X, a.Neg = u.X, !a.Neg
+				continue
+			}
+			break
+		}
+		m, pwt := gg.Match(a)
+		if !m {
+			allVerdict = false
+			break
+		}
+		if a.Neg {
+			pwt = !pwt
+		}
+		if first {
+			pol, first = pwt, false
+		} else if pol != pwt {
+			allVerdict = false
+			break
+		}
+	}
+	if allVerdict && !first {
+		return true, pol
+	}
+	// (b) constant form: `return true` (resp. false) only behind the pass edge
+	edges, sites := gg.PassEdges(h)
+	if len(sites) == 0 {
+		return false, false
+	}
+	r := Reach(h, ReachOpts{Removed: edges})
+	for _, val := range []bool{true, false} {
+		n, bypass := 0, false
+		for _, ri := range rets {
+			ret := ri.(*ssa.Return)
+			if len(ret.Results) == 0 {
+				continue
+			}
+			if b, ok := BoolConst(ret.Results[0]); ok && b == val {
+				n++
+				if r.Reachable(ret) {
+					bypass = true
+				}
+			} else if _, isConst := ret.Results[0].(*ssa.Const); !isConst {
+				bypass = true // computed answers: not decidable here
+			}
+		}
+		if n > 0 && !bypass {
+			return true, val
+		}
+	}
+	return false, false
+}
+
+// viaHelper: the atom tests the result of a helper that enforces g.
+func (g Gate) viaHelper(a Atom, self *ssa.Function) (bool, bool) {
+	if g.Name == "" {
+		return false, false
+	}
+	switch a.Op {
+	case token.EQL, token.NEQ:
+		var x ssa.Value
+		if IsNilConst(a.Y) {
+			x = a.X
+		} else if IsNilConst(a.X) {
+			x = a.Y
+		}
+		if x == nil || !IsErrorType(x.Type()) {
+			return false, false
+		}
+		h := helperOf(x, -1, self)
+		if h == nil || !g.enforcesErr(h) {
+			return false, false
+		}
+		return true, a.Op == token.EQL
+	case token.ILLEGAL:
+		if a.X == nil {
+			return false, false
+		}
+		if bt, ok := a.X.Type().Underlying().(*types.Basic); !ok || bt.Kind() != types.Bool {
+			return false, false
+		}
+		h := helperOf(a.X, 0, self)
+		if h == nil || h.Signature.Results().Len() != 1 {
+			return false, false
+		}
+		return g.enforcesBool(h)
+	}
+	return false, false
 }
 
 // PassEdges returns the pass edges of g in fn and the number of Ifs matched.
@@ -98,6 +322,9 @@ func (g Gate) PassEdges(fn *ssa.Function) (edges map[Edge]bool, sites []*ssa.If)
 		}
 		a := AtomOf(i)
 		m, pwt := g.Match(a)
+		if !m {
+			m, pwt = g.viaHelper(a, fn)
+		}
 		if !m {
 			continue
 		}
